@@ -125,6 +125,12 @@ class Flow(Driver):
             if self.eval_int_commits:
                 for b in tips:
                     evs.append(['eval_commit', b])
+            for kind in self.spec.get('manual', []):
+                for b in tips[1:]:
+                    if b in hs and not w.git(
+                            'log', '-1', '--format=%s', hs[b]).startswith(
+                                'manual fix'):
+                        evs.append(['manual', b, kind])
             for cm in self.comments:
                 user, text = cm[0], cm[1]
                 limit = cm[2] if len(cm) > 2 else 1
@@ -236,6 +242,7 @@ class Reset(Driver):
         super().__init__(spec)
         self.seq_len = spec.get('seq_len', 2)
         self.ops = spec.get('ops')
+        self.other = spec.get('other_pr', 2)
 
     def enabled(self, w, state):
         n_init = len(self.init_events())
@@ -249,7 +256,8 @@ class Reset(Driver):
             ws = sorted(b for b in int_branches(state, self.SRC1))
             pr1s = [p for p in state['prs'] if p['id'] == 1][0]
             ops = [['push', self.SRC1], ['eval_pr', 1],
-                   ['seq', ['ci_int', 2, 'SUCCESSFUL'], ['eval_pr', 2]]]
+                   ['seq', ['ci_int', self.other, 'SUCCESSFUL'],
+                    ['eval_pr', self.other]]]
             if not w.is_ancestor(hs[self.SRC1], hs[pr1s['dst']]):
                 # the source still has commits of its own
                 ops += [['amend', self.SRC1], ['reset_src', self.SRC1]]
